@@ -612,3 +612,235 @@ Qed.
 Corollary reclaim_transparent : forall fuel N cfg d h,
   Forall2 (fun a b => obs_eq (fst a) (fst b) /\ snd a = snd b) (run fuel N cfg d h) (run fuel N cfg (reclaim d) h).
 Proof. intros fuel N cfg d h. apply run_obs_eq. apply reclaim_obs_eq. Qed.
+
+(* ================================================================== *)
+(* PART B.  the hierarchy is unique up to node ids                      *)
+(* ================================================================== *)
+
+Definition edge_view (d : sd) (X Y : space) (ms : list space) : Prop :=
+  exists e, In e (sd_edges d) /\ n_space (get d (e_src e)) = X /\ n_space (get d (e_dst e)) = Y /\ Permutation (e_motifs e) ms.
+Definition same_hierarchy (d d' : sd) : Prop :=
+  (forall X, In X (spaces d) <-> In X (spaces d')) /\
+  (forall X Y ms, edge_view d X Y ms -> edge_view d' X Y ms) /\ (forall X Y ms, edge_view d' X Y ms -> edge_view d X Y ms).
+
+(* ---------- list helpers ---------- *)
+Lemma NoDup_map_injective_on : forall (A B : Type) (f : A -> B) (l : list A) a b,
+  NoDup (map f l) -> In a l -> In b l -> f a = f b -> a = b.
+Proof.
+  intros A B f l a b. induction l as [|x l IH]; simpl; intros Hnd Ha Hb Hf; [contradiction|].
+  inversion Hnd as [|y m Hnin Hnd']; subst.
+  destruct Ha as [Ha|Ha]; destruct Hb as [Hb|Hb].
+  - congruence.
+  - subst x. exfalso. apply Hnin. rewrite Hf. apply in_map. exact Hb.
+  - subst x. exfalso. apply Hnin. rewrite <- Hf. apply in_map. exact Ha.
+  - apply IH; assumption.
+Qed.
+
+Lemma NoDup_app_parts : forall (A : Type) (l l' : list A), NoDup (l ++ l') -> NoDup l /\ NoDup l'.
+Proof.
+  intros A l l'. induction l as [|x l IH]; simpl; intro Hnd; [split; [constructor|exact Hnd]|].
+  inversion Hnd as [|y m Hnin Hnd']; subst. destruct (IH Hnd') as [H1 H2].
+  split; [|exact H2]. constructor; [|exact H1]. intro Hin. apply Hnin. apply in_or_app. left. exact Hin.
+Qed.
+
+Lemma NoDup_flat_map_part : forall (A B : Type) (f : A -> list B) (l : list A) x,
+  NoDup (flat_map f l) -> In x l -> NoDup (f x).
+Proof.
+  intros A B f l x. induction l as [|a l IH]; simpl; intros Hnd Hin; [contradiction|].
+  destruct Hin as [Heq|Hin].
+  - subst a. apply (NoDup_app_parts _ _ _ Hnd).
+  - apply IH; [|exact Hin]. apply (NoDup_app_parts _ _ _ Hnd).
+Qed.
+
+Lemma max_traps_b_NoDup : forall N S srcs, NoDup (max_traps_b N S srcs).
+Proof.
+  intros N S srcs. rewrite max_traps_b_unfold. apply NoDup_filter. unfold max_cands.
+  apply NoDup_filter. unfold traps_in. apply NoDup_filter. apply subspaces_of_NoDup.
+Qed.
+
+(* ---------- reading edges of a hierarchy ---------- *)
+Lemma In_out_edges : forall d e, In e (sd_edges d) -> In e (out_edges d (e_src e)).
+Proof.
+  intros d e Hin. unfold out_edges. apply filter_In. split; [exact Hin|apply Nat.eqb_refl].
+Qed.
+
+Lemma In_out_motifs : forall d e m, In e (sd_edges d) -> In m (e_motifs e) ->
+  In m (out_motifs d (e_src e)).
+Proof.
+  intros d e m Hin Hm. unfold out_motifs. apply in_flat_map. exists e.
+  split; [apply In_out_edges; exact Hin|exact Hm].
+Qed.
+
+(* the motifs of an edge X -> Y are exactly the maximal trap spaces of X
+   (fixing the sources at the root) that percolate to Y, each once *)
+Lemma hierarchy_edge_motifs : forall N d e M, Hierarchy N d -> In e (sd_edges d) ->
+  (In M (e_motifs e) <->
+   In M (max_traps_b N (n_space (get d (e_src e))) (node_srcs N (e_src e))) /\
+   percolate_b N M = n_space (get d (e_dst e))).
+Proof.
+  intros N d e M Hh Hin. pose proof Hh as (Hswf & _).
+  destruct (swf_edges N d Hswf e Hin) as (Hs & Hd & _).
+  pose proof (hierarchy_canonical N d (e_src e) Hh Hs) as Hcan. unfold canonical in Hcan.
+  split.
+  - intro HM. split.
+    + eapply Permutation_in; [exact Hcan|]. apply In_out_motifs; assumption.
+    + apply (swf_motif N d Hswf e M Hin HM).
+  - intros [HM Hp].
+    apply (Permutation_in _ (Permutation_sym Hcan)) in HM.
+    unfold out_motifs in HM. apply in_flat_map in HM. destruct HM as (e2 & Hin2 & Hm2).
+    unfold out_edges in Hin2. apply filter_In in Hin2. destruct Hin2 as [Hin2 Hs2].
+    apply Nat.eqb_eq in Hs2.
+    destruct (swf_edges N d Hswf e2 Hin2) as (_ & Hd2 & _).
+    destruct (swf_motif N d Hswf e2 M Hin2 Hm2) as [_ Hp2].
+    assert (Hdd : e_dst e2 = e_dst e).
+    { apply (spaces_inj N d _ _ Hswf Hd2 Hd). congruence. }
+    assert (Heq : e2 = e).
+    { apply (NoDup_map_injective_on _ _ (fun e0 => (e_src e0, e_dst e0)) (sd_edges d));
+        [apply (swf_edge_nodup N d Hswf)|exact Hin2|exact Hin|]. simpl. congruence. }
+    subst e2. exact Hm2.
+Qed.
+
+Lemma hierarchy_edge_motifs_NoDup : forall N d e, Hierarchy N d -> In e (sd_edges d) ->
+  NoDup (e_motifs e).
+Proof.
+  intros N d e Hh Hin. pose proof Hh as (Hswf & _).
+  destruct (swf_edges N d Hswf e Hin) as (Hs & _ & _).
+  pose proof (hierarchy_canonical N d (e_src e) Hh Hs) as Hcan. unfold canonical in Hcan.
+  assert (Hnd : NoDup (out_motifs d (e_src e))).
+  { eapply Permutation_NoDup; [apply Permutation_sym; exact Hcan|apply max_traps_b_NoDup]. }
+  unfold out_motifs in Hnd. eapply NoDup_flat_map_part; [exact Hnd|]. apply In_out_edges. exact Hin.
+Qed.
+
+Lemma hierarchy_edge_strict : forall N d e, Hierarchy N d -> In e (sd_edges d) ->
+  strict_subspace (n_space (get d (e_dst e))) (n_space (get d (e_src e))).
+Proof.
+  intros N d e Hh Hin. pose proof Hh as (Hswf & _).
+  destruct (swf_edges N d Hswf e Hin) as (Hs & _ & Hne).
+  destruct (e_motifs e) as [|m r] eqn:Em; [exfalso; apply Hne; reflexivity|].
+  assert (Hm : In m (e_motifs e)) by (rewrite Em; left; reflexivity).
+  apply (hierarchy_edge_motifs N d e m Hh Hin) in Hm. destruct Hm as [Hm Hp].
+  pose proof (hierarchy_space_len N d (e_src e) Hh Hs) as Hlen.
+  destruct (max_traps_b_trap N _ _ m Hlen Hm) as [_ Hss].
+  rewrite <- Hp. apply strict_percolate; [|exact Hss].
+  rewrite (max_traps_b_length N _ _ m Hm). exact Hlen.
+Qed.
+
+(* node 0 is the root in both diagrams, so equal spaces get the same source filter *)
+Lemma hierarchy_srcs_agree : forall N d d' i j, Hierarchy N d -> Hierarchy N d' ->
+  i < size d -> j < size d' -> n_space (get d i) = n_space (get d' j) ->
+  node_srcs N i = node_srcs N j.
+Proof.
+  intros N d d' i j Hh Hh' Hi Hj Heq.
+  pose proof Hh as (Hswf & _ & _ & _ & _ & Hroot).
+  pose proof Hh' as (Hswf' & _ & _ & _ & _ & Hroot').
+  destruct i as [|i], j as [|j]; try reflexivity; exfalso.
+  - assert (H0 : S j = 0); [|discriminate H0].
+    apply (spaces_inj N d' _ _ Hswf' Hj (swf_size N d' Hswf')). congruence.
+  - assert (H0 : S i = 0); [|discriminate H0].
+    apply (spaces_inj N d _ _ Hswf Hi (swf_size N d Hswf)). congruence.
+Qed.
+
+(* every node of a rooted hierarchy appears in any other hierarchy *)
+Lemma hierarchy_nodes_incl : forall N d d', Hierarchy N d -> Hierarchy N d' -> Rooted d ->
+  forall k i, i < size d -> nfixed (n_space (get d i)) < k ->
+  exists j, j < size d' /\ n_space (get d' j) = n_space (get d i).
+Proof.
+  intros N d d' Hh Hh' Hr.
+  pose proof Hh as (Hswf & _ & _ & _ & _ & Hroot).
+  pose proof Hh' as (Hswf' & _ & _ & _ & _ & Hroot').
+  induction k as [|k IH]; intros i Hi Hk; [lia|].
+  destruct i as [|i].
+  { exists 0. split; [apply (swf_size N d' Hswf')|congruence]. }
+  destruct (Hr (S i)) as (e & Hin & Hd); [lia|exact Hi|].
+  destruct (swf_edges N d Hswf e Hin) as (Hs & _ & _).
+  pose proof (hierarchy_edge_strict N d e Hh Hin) as Hss. rewrite Hd in Hss.
+  apply strict_subspace_nfixed in Hss.
+  destruct (IH (e_src e) Hs) as (js & Hjs & Hsp); [lia|].
+  pose proof (hierarchy_srcs_agree N d d' (e_src e) js Hh Hh' Hs Hjs (eq_sym Hsp)) as Hsrc.
+  assert (Hsucc : exists j, In j (successors d (e_src e)) /\ n_space (get d j) = n_space (get d (S i))).
+  { exists (S i). split; [|reflexivity]. apply In_successors. exists e. repeat split; assumption. }
+  apply (hierarchy_successors N d (e_src e) _ Hh Hs) in Hsucc.
+  rewrite <- Hsp, Hsrc in Hsucc.
+  apply (hierarchy_successors N d' js _ Hh' Hjs) in Hsucc.
+  destruct Hsucc as (j & Hj & Hspj). exists j. split; [|exact Hspj].
+  eapply successors_valid; eassumption.
+Qed.
+
+Lemma hierarchy_spaces_incl : forall N d d' X, Hierarchy N d -> Hierarchy N d' -> Rooted d ->
+  In X (spaces d) -> In X (spaces d').
+Proof.
+  intros N d d' X Hh Hh' Hr Hin. apply In_spaces_iff in Hin. destruct Hin as (i & Hi & Hsp).
+  destruct (hierarchy_nodes_incl N d d' Hh Hh' Hr (S (nfixed (n_space (get d i)))) i Hi)
+    as (j & Hj & Hspj); [lia|].
+  apply In_spaces_iff. exists j. split; [exact Hj|congruence].
+Qed.
+
+Lemma hierarchy_edges_incl : forall N d d' X Y ms, Hierarchy N d -> Hierarchy N d' -> Rooted d ->
+  edge_view d X Y ms -> edge_view d' X Y ms.
+Proof.
+  intros N d d' X Y ms Hh Hh' Hr (e & Hin & HX & HY & Hperm).
+  pose proof Hh as (Hswf & _). pose proof Hh' as (Hswf' & _).
+  destruct (swf_edges N d Hswf e Hin) as (Hs & Hd & Hne).
+  destruct (hierarchy_nodes_incl N d d' Hh Hh' Hr (S (nfixed (n_space (get d (e_src e))))) (e_src e) Hs)
+    as (js & Hjs & Hsp); [lia|].
+  pose proof (hierarchy_srcs_agree N d d' (e_src e) js Hh Hh' Hs Hjs (eq_sym Hsp)) as Hsrc.
+  assert (Hex : exists m, In m (e_motifs e)).
+  { destruct (e_motifs e) as [|m r]; [exfalso; apply Hne; reflexivity|exists m; left; reflexivity]. }
+  destruct Hex as (m & Hm).
+  apply (hierarchy_edge_motifs N d e m Hh Hin) in Hm. destruct Hm as [Hm Hp].
+  (* the edge of d' carrying m *)
+  pose proof (hierarchy_canonical N d' js Hh' Hjs) as Hcan'. unfold canonical in Hcan'.
+  assert (Hm' : In m (out_motifs d' js)).
+  { eapply Permutation_in; [apply Permutation_sym; exact Hcan'|]. rewrite Hsp, <- Hsrc. exact Hm. }
+  unfold out_motifs in Hm'. apply in_flat_map in Hm'. destruct Hm' as (e' & Hin' & Hme').
+  unfold out_edges in Hin'. apply filter_In in Hin'. destruct Hin' as [Hin' Hs'].
+  apply Nat.eqb_eq in Hs'.
+  destruct (swf_motif N d' Hswf' e' m Hin' Hme') as [_ Hp'].
+  exists e'. split; [exact Hin'|]. split; [rewrite Hs'; congruence|]. split; [congruence|].
+  eapply Permutation_trans; [|exact Hperm].
+  apply NoDup_Permutation.
+  - apply (hierarchy_edge_motifs_NoDup N d' e' Hh' Hin').
+  - apply (hierarchy_edge_motifs_NoDup N d e Hh Hin).
+  - intro M. rewrite (hierarchy_edge_motifs N d' e' M Hh' Hin'),
+                     (hierarchy_edge_motifs N d e M Hh Hin).
+    rewrite Hs', Hsp, <- Hsrc, <- Hp', Hp. reflexivity.
+Qed.
+
+(* hierarchy_unique as first stated (without Rooted) is false: Hierarchy does not
+   say that every node is reachable from the root, see the report / the
+   counterexample below; with Rooted on both sides it holds *)
+Theorem hierarchy_unique_weak : forall N d d', Hierarchy N d -> Hierarchy N d' ->
+  Rooted d -> Rooted d' -> same_hierarchy d d'.
+Proof.
+  intros N d d' Hh Hh' Hr Hr'. split; [|split].
+  - intro X. split; [apply (hierarchy_spaces_incl N d d')|apply (hierarchy_spaces_incl N d' d)];
+      assumption.
+  - intros X Y ms. apply (hierarchy_edges_incl N d d'); assumption.
+  - intros X Y ms. apply (hierarchy_edges_incl N d' d); assumption.
+Qed.
+
+(* a full unrestricted BFS from any reachable skip-free diagram gives the same
+   hierarchy as a BFS from scratch *)
+Corollary bfs_after_anything : forall fuel1 fuel2 N cfg d0 d1 d2, 1 <= max_motifs cfg ->
+  SWF N d0 -> TrapNodes N d0 -> NoStubEdges d0 -> EdgeStrict d0 -> Rooted d0 -> Faithful N d0 -> NoSkips d0 ->
+  n_space (get d0 0) = percolate_b N (top_space (nvars N)) ->
+  expand_bfs fuel1 N cfg d0 None None None = (d1, RBool true) ->
+  expand_bfs fuel2 N cfg (init N) None None None = (d2, RBool true) -> same_hierarchy d1 d2.
+Proof.
+  intros fuel1 fuel2 N cfg d0 d1 d2 Hcfg Hswf Htn Hnse Hes Hr Hf Hns Hroot Hrun1 Hrun2.
+  assert (Hstep1 : fst (step fuel1 N cfg d0 (OBfs None None None)) = d1).
+  { simpl. rewrite Hrun1. reflexivity. }
+  assert (Hstep2 : fst (step fuel2 N cfg (init N) (OBfs None None None)) = d2).
+  { simpl. rewrite Hrun2. reflexivity. }
+  apply (hierarchy_unique_weak N).
+  - rewrite <- Hstep1.
+    split; [apply step_SWF; exact Hswf|].
+    split; [apply step_TrapNodes; assumption|].
+    split; [rewrite Hstep1; eapply bfs_complete; eassumption|].
+    split; [apply noskips_plain; [exact I|exact Hns]|].
+    split; [apply step_Faithful_all; assumption|].
+    rewrite root_stable by exact Hswf. exact Hroot.
+  - eapply bfs_hierarchy; eassumption.
+  - rewrite <- Hstep1. apply step_Rooted; [exact Hswf|exact I|exact Hr].
+  - rewrite <- Hstep2. apply step_Rooted; [apply init_SWF|exact I|apply init_Rooted].
+Qed.
